@@ -77,4 +77,17 @@ def rows(pid, repo, res):
     bad = [c for c in callers if c not in exp]
     if bad:
         failed['I.collection_entry'] = ['collection work reachable from %s' % bad]
+    # I.zst_no_conjuring (C19): every safe pub fn of ZstCache that returns a Gc<'gc, T> for a caller-chosen T is given a T by the caller
+    z = src.get('zst_cache.rs', '')
+    rows['I.zst_no_conjuring'] = dict(serves=['C19'], kind='inventory', fn='src/zst_cache.rs',
+                                      text="every non-`unsafe` `pub fn` of ZstCache whose return type mentions Gc<'gc, T> for its own type parameter T takes a `T` argument (a T was supplied by the caller)")
+    bad = []
+    for m in re.finditer(r'pub (unsafe )?fn (\w+)\s*<([^>]*)>\s*\(([^)]*)\)\s*->\s*([^{]+)\{', z):
+        unsafe_, name, gens, params, ret = m.groups()
+        tps = [g.split(':')[0].strip() for g in gens.split(',') if g.strip() and not g.strip().startswith("'") and not g.strip().startswith('const')]
+        for tp in tps:
+            if re.search(r"Gc<'gc,\s*%s\b" % tp, ret) and not unsafe_ and not re.search(r':\s*%s\b' % tp, params):
+                bad.append(name)
+    if bad:
+        failed['I.zst_no_conjuring'] = ['safe functions returning a Gc<T> without being given a T: %s' % bad]
     return rows, failed
